@@ -182,6 +182,9 @@ impl<
 
         match self.maintenance_mode {
             MaintenanceMode::Piggyback => {
+                #[cfg(feature = "verif")]
+                crate::verif::thread_point("lfu_before_policy_lock");
+
                 let Some(mut lock) = self.inner.policy.try_lock() else {
                     return;
                 };
@@ -410,6 +413,9 @@ impl<
     #[inline]
     pub fn get_map<T>(&self, key: &K, f: impl Fn(&V) -> T) -> Option<T> {
         let entry = self.inner.storage.read_sync(key, |_, v| f(v));
+
+        #[cfg(feature = "verif")]
+        crate::verif::thread_point("lfu_after_read");
 
         self.try_maintenance(Some(PolicyMessage::ReadHit(key.clone())));
 
